@@ -31,13 +31,14 @@ U64 = 2 ** 64
 
 MEMBERS = {
     'none': [[]],
-    'word': [['x'], ['foo.txt'], ["'a b'"], ['"c d"'], ['a"b'], ['x*'], ['é'], ["'q)r'"], ['-print'], ['5'], ["'-o'"]],
+    'word': [['x'], ['foo.txt'], ["'a b'"], ['"c d"'], ['a"b'], ['x*'], ['é'], ["'q)r'"], ['-print'], ['5'], ["'-o'"],
+             ['"dir\\"'], ["'dir\\'"], ['dir\\'], ['"a\\\\"'], ['"C:\\tmp\\"'], ['"a\\b"'], ['"{}"'], ['{mdt}'], ["'a(b'"], ['":)"'], ['日本'], ["'é x'"]],
     'cmp32': [['0'], ['5'], ['+5'], ['-5'], ['007'], [str(U32 - 1)], ['+' + str(U32 - 1)], ['-0'], ['00000000000000000001']],
     'cmp64': [['0'], ['5'], ['+5'], ['-5'], [str(U32)], [str(U64 - 1)], ['+' + str(U64 - 1)]],
     'u32': [['0'], ['4'], ['16'], [str(U32 - 1)], ['0008']],
     'size': [['5'], ['5c'], ['5w'], ['5b'], ['5k'], ['5M'], ['5G'], ['5T'], ['+5k'], ['-5M'], ['0'], ['+0c'], [str(U64 - 1)], ['1000000T']],
     'time': [['5'], ['5s'], ['5m'], ['5h'], ['5d'], ['+5'], ['-5d'], ['0'], ['+0s'], [str(U64 - 1) + 'd']],
-    'types': [['f'], ['d'], ['f,d'], ['b,c,p,l,s'], ['f,f'], ['l'], ['s,b']],
+    'types': [['f'], ['d'], ['f,d'], ['b,c,p,l,s'], ['f,f'], ['l'], ['s,b']] + [[','.join(c)] for n in (3, 4) for c in __import__('itertools').product('fdl', repeat=n)],
     'perm': [['644'], ['0644'], ['7777'], ['000'], ['-644'], ['/222'], ['u+x'], ['-u+x'], ['/u+x'], ['a=r'], ['ug=rw'],
              ['u=rwx,g=rx,o=r'], ["'u+r'"], ['"g+w"'], ['a+rwx'], ['o=x,o=w'], ['u+r,g+r,o+r'], ['-a-x'], ['00644'], ['/o-w']],
     'format': [["'%p\\n'"], ['"%p %s\\n"'], ["'abc'"], ['%p'], ["'%%'"], ["'\\101'"], ["'%A@ %Tk %CY'"], ["'%{fid} %{xattr:user}\\0'"],
@@ -71,7 +72,8 @@ def in_ctx(ctx, prim):
     return {'alone': prim, 'after': '-true ' + prim, 'before': prim + ' -false', 'paren': '( ' + prim + ' )',
             'not': '! ' + prim, 'mid': '-true ' + prim + ' -o -false', 'list': '-false , ' + prim + ' -true',
             'gparen': '(' + prim + ')', 'long': '-true ' * 60 + prim + ' -o -false', 'tab': '-true\t' + prim + '\n',
-            'deep': '( ' * 20 + prim + ' )' * 20}[ctx]
+            'deep': '( ' * 20 + prim + ' )' * 20, 'aftertype': '-type f ' + prim, 'beforetype': prim + ' -type d',
+            'afteruid': '-uid 0 ' + prim}[ctx]
 
 
 def prim_request(op, kw, args, ctx, extra=''):
@@ -220,6 +222,11 @@ def gen_numeric(tier, rnd):
                 for u in units:
                     ctx = rnd.choice(['alone', 'after', 'paren'])
                     lines.append(prim_request('C', kw, [sp + u], ctx, ' ' + hx('/dev/x')))
+    # the thread count with other options around it (leading, misplaced, in parentheses)
+    for v in [0, 1, 8, 2 ** 31, U32 - 1]:
+        for text in ['-threads %d -name x -depth', '-depth -threads %d -name x', '-threads %d ( -name x -o -depth )', '-name x -threads %d -depth',
+                     '-depth -name x -threads %d', '-threads %d -depth', '-threads %d -name x ( -depth ) -print']:
+            lines.append('C %s %s #threads=%d' % (hx(text % v), hx('/dev/x'), v))
     # every letter (and some punctuation) as a would-be unit suffix, with small and huge counts:
     # a suffix is either a documented unit (exact product) or the argument is rejected
     import string
@@ -269,13 +276,20 @@ def gen_perm(tier, rnd):
         n = rnd.choice([3, 4])
         pre = rnd.choice(['', '-', '/'])
         lines.append(prim_request('C', '-perm', [pre + ','.join(rnd.choice(singles) for _ in range(n))], 'alone', ' ' + hx('/')))
-    return lines, {'rule': 'all 4096 octal values in 3- and 4-digit spelling, all 315 single clauses, %s two-clause lists, sampled 3- and 4-clause lists, each under the three prefixes; parse + compile; non-trivial = every request'
+    # the permission test next to other primaries and under operators (a generator that treats neighbours specially
+    # must still emit the three checks)
+    modes = ['644', '0644', '4755', '2750', '1777', '7777', '000', '0', '111', 'u=rw,go=r', 'a+x', 'u+s', 'g+s', 'o+t', 'ug=rwx']
+    for m in modes:
+        for pre in ['', '-', '/']:
+            for ctx in ['aftertype', 'beforetype', 'afteruid', 'not', 'paren', 'gparen', 'after', 'mid', 'list']:
+                lines.append(prim_request('C', '-perm', [pre + m], ctx, ' ' + hx('/')))
+    return lines, {'rule': '15 modes (incl. setuid/setgid/sticky) x 3 prefixes next to -type/-uid, under !, in parentheses and in and/or/list positions; all 4096 octal values in 3- and 4-digit spelling, all 315 single clauses, %s two-clause lists, sampled 3- and 4-clause lists, each under the three prefixes; parse + compile; non-trivial = every request'
                    % ('5000 sampled' if tier == 'quick' else 'all 99225'), 'exhaustive': tier != 'quick', 'streams': {'perm': len(lines)}}
 
 
 # ------------------------------------------------------------------ format (C14)
 
-FMT_ALPHABET = ['%', '\\', '{', '}', ':', 'a', 'n', 'p', 'q', 'A', '@', '0', '1', '7', '8', 'x']
+FMT_ALPHABET = ['%', '\\', '{', '}', ':', 'a', 'n', 'p', 'q', 'A', '@', '0', '1', '7', '8', 'x', 'é', '日', '\U0001f600']
 
 
 def gen_format(tier, rnd):
@@ -299,8 +313,10 @@ def gen_format(tier, rnd):
 BADWORDS = {
     'time': ['x', '@', 'd5', '%', ',5'], 'cmp32': ['x', '@', 'k', '%5', ',1'], 'cmp64': ['x', '@', '#1'], 'u32': ['x', '@', 'four'],
     'size': ['k', 'x', '@', '%'], 'types': ['x', 'q', 'Z', '@'], 'perm': ['q+r', '@', 'x', '%644', '9'],
-    'format': ["'%q'", '%', "'%{nope}'"],
+    'format': ["'%q'", '%', "'%{nope}'", "'%q %p'"],
 }
+for _k in ('time', 'cmp32', 'cmp64', 'u32', 'size', 'types', 'perm'):
+    BADWORDS[_k] = BADWORDS[_k] + ["'abc def'", '"x y"', "'a)b'", '"q\tr"']
 VALID_PRIMS = ['-true', '-name a', '-uid 5', '-type f', '-size +1k', '-print', '-empty']
 
 
@@ -427,7 +443,13 @@ def gen_options(tier, rnd):
             lines.append('P %s #role=var #opts=%s' % (hx(layout(variant)), opts))
         else:
             lines.append('P %s #grp=o%d #role=var #opts=%s' % (hx(layout(variant)), g, opts))
-    return lines, {'rule': '%d random well-formed expressions, each with 0..4 options (-depth, -threads N with repeated different values, -maxdepth/-mindepth N) inserted at random word boundaries (front, middle, inside parentheses, after !, directly before a glued closing parenthesis, with varied blank runs), paired with the same expression where the leading options are dropped and every other option is -true; non-trivial = pairs with at least one option' % n,
+    # state left behind by a REJECTED input must not leak into the next parse (same process, same thread)
+    for bad, good, opts in [('( -name a -threads 7 -depth', '-name b', '0_-'), ('-name a -threads 9 -o', '-threads 2 -name b', '0_2'),
+                            ('-depth -name a )', '-name c', '0_-'), ('-name a -depth -bogus', '-name d', '0_-'),
+                            ('! -threads 5', '-print', '0_-'), ('-name a -threads 11 ( -depth', '-uid 0', '0_-')]:
+        lines.append('P %s' % hx(bad))
+        lines.append('P %s #role=var #opts=%s' % (hx(good), opts))
+    return lines, {'rule': 'histories in which an input rejected by the grammar after misplaced options is followed by an ordinary input; %d random well-formed expressions, each with 0..4 options (-depth, -threads N with repeated different values, -maxdepth/-mindepth N) inserted at random word boundaries (front, middle, inside parentheses, after !, directly before a glued closing parenthesis, with varied blank runs), paired with the same expression where the leading options are dropped and every other option is -true; non-trivial = pairs with at least one option' % n,
                    'streams': {'options': len(lines)}}
 
 
@@ -440,17 +462,33 @@ QUOTABLE = [('-name', ['x', 'foo.txt', 'a b', "it's", 'say"hi', 'x*', 'é', 'dir
 PLAIN = ['-true', '-false', '-empty', '-uid 5', '-size +1k', '-type f,d', '-print', '-print0', '-quit', '-amin -5', '-links 2', '-print-file-fid']
 
 
-def rand_layout_tree(rnd, depth):
+def rand_layout_tree(rnd, depth, first=True):
+    t = _rand_layout_tree(rnd, depth)
+    # an option in leading position is a leading option, not an operand: keep options out of the first leaf
+    def fix(t):
+        if t[0] == 'p':
+            return ('p', '-true') if t[1] in ('-depth', '-threads 3') else t
+        if t[0] == 'q':
+            return t
+        if t[0] == 'not':
+            return ('not', fix(t[1]))
+        return (t[0], fix(t[1]), t[2])
+    return fix(t)
+
+
+def _rand_layout_tree(rnd, depth):
     if depth <= 0 or rnd.random() < 0.3:
+        if rnd.random() < 0.08:
+            return ('p', rnd.choice(['-depth', '-threads 3']))
         if rnd.random() < 0.5:
             kw, vals = rnd.choice(QUOTABLE)
             return ('q', kw, rnd.choice(vals))
         return ('p', rnd.choice(PLAIN))
     k = rnd.random()
     if k < 0.15:
-        return ('not', rand_layout_tree(rnd, depth - 1))
+        return ('not', _rand_layout_tree(rnd, depth - 1))
     op = rnd.choice(['and', 'and', 'or', 'list'])
-    return (op, rand_layout_tree(rnd, depth - 1), rand_layout_tree(rnd, depth - 1))
+    return (op, _rand_layout_tree(rnd, depth - 1), _rand_layout_tree(rnd, depth - 1))
 
 
 BLANKS = [' ', ' ', '\t', '\n', '\r', '  ', ' \t\n', '\r\n']
@@ -580,6 +618,9 @@ def gen_totality(tier, rnd):
             if NUMERIC[kw] == 'size':
                 for u in SIZE_UNITS:
                     add('%s %d%s' % (kw, v, u))
+    for n in (1, 2, 3, 4, 5):
+        for c in itertools.product('fdlx', repeat=n):
+            add('-type ' + ','.join(c))
     import string
     for kw in NUMERIC:
         for sfx in string.ascii_letters:
